@@ -446,17 +446,84 @@ Section Aead.
   Qed.
 End Aead.
 
+(** * 3b. The HMAC key block *)
+
+Lemma copy_into_short n l : (length l <= n)%nat -> copy_into n l = l ++ repeat 0 (n - length l).
+Proof. intros H. unfold copy_into. rewrite firstn_all2 by exact H. reflexivity. Qed.
+
+Lemma hmac_key_block_short hash pw :
+  (length pw <= HmacBlock)%nat ->
+  hmac_key_block hash pw = pw ++ repeat 0 (HmacBlock - length pw).
+Proof.
+  intros H. unfold hmac_key_block.
+  destruct (Nat.ltb_spec HmacBlock (length pw)) as [H1|H1]; [lia|].
+  apply copy_into_short. exact H.
+Qed.
+
+(** A passphrase shorter than the block and the same passphrase followed by
+    a NUL byte have the same key block. *)
+Lemma hmac_key_block_trailing_nul hash pw :
+  (length pw < HmacBlock)%nat -> hmac_key_block hash (pw ++ [0]) = hmac_key_block hash pw.
+Proof.
+  intros H. rewrite !hmac_key_block_short by (rewrite ?app_length; simpl; lia).
+  rewrite app_length. simpl length.
+  replace (HmacBlock - length pw)%nat with (S (HmacBlock - (length pw + 1))) by lia.
+  simpl. rewrite <- app_assoc. reflexivity.
+Qed.
+
+Lemma all_zero_last (l : bytes) d : l <> [] -> Forall (fun b => b = 0) l -> last l d = 0.
+Proof.
+  induction l as [|x l IH]; intros Hne Hall; [contradiction|].
+  destruct l as [|y l]; simpl.
+  - exact (Forall_inv Hall).
+  - apply IH; [discriminate|exact (Forall_inv_tail Hall)].
+Qed.
+
+Lemma prefix_of_zeros (l : bytes) rest a : l ++ rest = repeat 0 a -> Forall (fun b => b = 0) l.
+Proof.
+  revert a; induction l as [|x l IH]; intros a H; [constructor|].
+  destruct a as [|a]; simpl in H; [discriminate|]. injection H as -> H.
+  constructor; [reflexivity|exact (IH a H)].
+Qed.
+
+Lemma zero_padding_inj (pw pw' : bytes) a b :
+  pw ++ repeat 0 a = pw' ++ repeat 0 b -> last pw 1 <> 0 -> last pw' 1 <> 0 -> pw = pw'.
+Proof.
+  revert pw'; induction pw as [|x q IH]; intros [|y q'] H L L'.
+  - reflexivity.
+  - exfalso. apply L'. apply all_zero_last; [discriminate|].
+    simpl app at 1 in H. symmetry in H. exact (prefix_of_zeros _ _ _ H).
+  - exfalso. apply L. apply all_zero_last; [discriminate|].
+    simpl app at 2 in H. exact (prefix_of_zeros _ _ _ H).
+  - simpl in H. injection H as -> H. f_equal. apply IH; [exact H| |].
+    + destruct q as [|z q]; [simpl; discriminate|exact L].
+    + destruct q' as [|z q']; [simpl; discriminate|exact L'].
+Qed.
+
+(** Among passphrases of at most 64 bytes that do not end in a NUL byte the
+    key block determines the passphrase. *)
+Lemma hmac_key_block_plain hash pw pw' :
+  (length pw <= HmacBlock)%nat -> (length pw' <= HmacBlock)%nat ->
+  last pw 1 <> 0 -> last pw' 1 <> 0 ->
+  hmac_key_block hash pw = hmac_key_block hash pw' -> pw = pw'.
+Proof.
+  intros H H' L L' E. rewrite !hmac_key_block_short in E by assumption.
+  exact (zero_padding_inj _ _ _ _ E L L').
+Qed.
+
 (** * 4. Passphrase binding *)
 
 Section Kdf.
   Variable kdf : bytes -> bytes -> Z -> Z -> Z -> option bytes.
   Variable hash : bytes -> bytes.
-  Hypothesis kdf_inj : law_kdf_inj kdf.
+  Hypothesis kdf_inj : law_kdf_inj kdf hash.
+  Hypothesis kdf_hmac : law_kdf_hmac kdf hash.
   Hypothesis kdf_domain : law_kdf_domain kdf.
   Hypothesis hash_inj : law_hash_inj hash.
 
   Local Notation new_secret_key := (new_secret_key kdf hash).
   Local Notation derive_key := (derive_key kdf hash).
+  Local Notation key_block := (hmac_key_block hash).
 
   Lemma new_secret_key_inv pw s n r p sk :
     new_secret_key pw (Some s) n r p = Ok sk ->
@@ -505,11 +572,22 @@ Section Kdf.
     rewrite Hk. cbn [sk_key sk_params digest]. rewrite bytes_eqb_refl. reflexivity.
   Qed.
 
-  (** uses: kdf_inj, kdf_domain, hash_inj - every other passphrase is
-      rejected with ErrInvalidPassword. *)
+  (** uses: kdf_hmac - so is every passphrase with the same HMAC key block
+      (this is the recorded finding: the code cannot tell them apart). *)
+  Theorem derive_key_accepts_equivalent pw s n r p sk sk' pw' :
+    new_secret_key pw (Some s) n r p = Ok sk -> sk_params sk' = sk_params sk ->
+    key_block pw' = key_block pw -> derive_key sk' pw' = (sk, None).
+  Proof.
+    intros H HP HB. rewrite <- (derive_key_accepts_creator _ _ _ _ _ _ _ H HP).
+    unfold Snacl.derive_key, derive_key_raw.
+    rewrite (kdf_hmac pw' pw _ _ _ _ HB). reflexivity.
+  Qed.
+
+  (** uses: kdf_inj, kdf_domain, hash_inj - every passphrase with another
+      HMAC key block is rejected with ErrInvalidPassword. *)
   Theorem derive_key_rejects_other pw s n r p sk sk' pw' :
     new_secret_key pw (Some s) n r p = Ok sk -> sk_params sk' = sk_params sk ->
-    pw' <> pw -> snd (derive_key sk' pw') = Some ErrInvalidPassword.
+    key_block pw' <> key_block pw -> snd (derive_key sk' pw') = Some ErrInvalidPassword.
   Proof.
     intros H HP Hne. apply new_secret_key_inv in H as (k & Hk & ->). cbn [sk_params] in HP.
     unfold Snacl.derive_key, derive_key_raw. rewrite HP. cbn [salt pN pR pP digest].
@@ -523,12 +601,12 @@ Section Kdf.
 
   Theorem derive_key_exact pw s n r p sk sk' pw' :
     new_secret_key pw (Some s) n r p = Ok sk -> sk_params sk' = sk_params sk ->
-    (snd (derive_key sk' pw') = None <-> pw' = pw).
+    (snd (derive_key sk' pw') = None <-> key_block pw' = key_block pw).
   Proof.
     intros H HP. split.
-    - intros Hacc. destruct (list_eq_dec N.eq_dec pw' pw) as [E|E]; [exact E|].
+    - intros Hacc. destruct (list_eq_dec N.eq_dec (key_block pw') (key_block pw)) as [E|E]; [exact E|].
       rewrite (derive_key_rejects_other _ _ _ _ _ _ _ _ H HP E) in Hacc. discriminate.
-    - intros ->. rewrite (derive_key_accepts_creator _ _ _ _ _ _ _ H HP). reflexivity.
+    - intros E. rewrite (derive_key_accepts_equivalent _ _ _ _ _ _ _ _ H HP E). reflexivity.
   Qed.
 
   (** After a restart: the marshalled parameters decode to the same
@@ -539,7 +617,8 @@ Section Kdf.
     new_secret_key pw (Some s) n r p = Ok sk -> params_in_range (sk_params sk) ->
     exists sk0, unmarshal fresh_sk (marshal sk) = Ok sk0 /\ sk_params sk0 = sk_params sk /\
       derive_key sk0 pw = (sk, None) /\
-      forall pw', pw' <> pw -> snd (derive_key sk0 pw') = Some ErrInvalidPassword.
+      forall pw', key_block pw' <> key_block pw ->
+                  snd (derive_key sk0 pw') = Some ErrInvalidPassword.
   Proof.
     intros H HR. unfold unmarshal, marshal. rewrite (unmarshal_marshal_params _ HR).
     eexists. split; [reflexivity|]. cbn [sk_params]. split; [reflexivity|]. split.
@@ -742,44 +821,50 @@ Proof.
   destruct (Z.ltb_spec a 0), (Z.ltb_spec b 0); try discriminate; lia.
 Qed.
 
-Lemma toy_kdf_long_length pw s n r p : (33 <= length (toy_kdf_long pw s n r p))%nat.
+Lemma toy_kdf_long_length blk s n r p : (33 <= length (toy_kdf_long blk s n r p))%nat.
 Proof. unfold toy_kdf_long. rewrite app_length, repeat_length. lia. Qed.
 
-Lemma toy_kdf_short_spec pw s n r p :
-  toy_kdf_short pw s n r p = true ->
-  pw = [] /\ n = 2%Z /\ r = 1%Z /\ p = 1%Z /\ length s = 32%nat.
+Lemma toy_kdf_short_spec blk s n r p :
+  toy_kdf_short blk s n r p = true ->
+  blk = repeat 0 HmacBlock /\ n = 2%Z /\ r = 1%Z /\ p = 1%Z /\ length s = 32%nat.
 Proof.
   unfold toy_kdf_short. intros H.
   repeat (apply andb_prop in H as [H ?]).
-  destruct pw; [|discriminate]. repeat split; lia.
+  apply bytes_eqb_eq in H. repeat split; try lia. exact H.
 Qed.
 
-Theorem toy_kdf_inj : law_kdf_inj toy_kdf.
+Theorem toy_kdf_inj h : law_kdf_inj (toy_kdf h) h.
 Proof.
   intros pw s n r p pw' s' n' r' p' k H H'. unfold toy_kdf in *.
+  set (blk := hmac_key_block h pw) in *. set (blk' := hmac_key_block h pw') in *.
   destruct (scrypt_class n r p =? 0); [|discriminate].
   destruct (scrypt_class n' r' p' =? 0); [|discriminate].
-  destruct (toy_kdf_short pw s n r p) eqn:S1; destruct (toy_kdf_short pw' s' n' r' p') eqn:S2;
+  destruct (toy_kdf_short blk s n r p) eqn:S1; destruct (toy_kdf_short blk' s' n' r' p') eqn:S2;
     injection H as H; injection H' as H'.
-  - apply toy_kdf_short_spec in S1 as (-> & -> & -> & -> & _).
-    apply toy_kdf_short_spec in S2 as (-> & -> & -> & -> & _).
-    subst. repeat split.
+  - apply toy_kdf_short_spec in S1 as (E1 & -> & -> & -> & _).
+    apply toy_kdf_short_spec in S2 as (E2 & -> & -> & -> & _).
+    subst. repeat split. congruence.
   - apply toy_kdf_short_spec in S1 as (_ & _ & _ & _ & L).
-    pose proof (toy_kdf_long_length pw' s' n' r' p'). rewrite H', <- H, L in *. lia.
+    pose proof (toy_kdf_long_length blk' s' n' r' p'). rewrite H', <- H, L in *. lia.
   - apply toy_kdf_short_spec in S2 as (_ & _ & _ & _ & L).
-    pose proof (toy_kdf_long_length pw s n r p). rewrite H, <- H', L in *. lia.
+    pose proof (toy_kdf_long_length blk s n r p). rewrite H, <- H', L in *. lia.
   - rewrite <- H' in H. unfold toy_kdf_long in H. apply app_inv_head in H.
-    apply lp_app_inj in H as [-> H]. apply lp_app_inj in H as [-> H].
+    apply lp_app_inj in H as [E H]. apply lp_app_inj in H as [-> H].
     apply encZ_inj in H as [-> H]. apply encZ_inj in H as [-> H].
     rewrite <- (app_nil_r (encZ p)), <- (app_nil_r (encZ p')) in H.
-    apply encZ_inj in H as [-> _]. repeat split.
+    apply encZ_inj in H as [-> _]. repeat split. exact E.
 Qed.
 
-Theorem toy_kdf_domain : law_kdf_domain toy_kdf.
+Theorem toy_kdf_hmac h : law_kdf_hmac (toy_kdf h) h.
+Proof.
+  intros pw pw' s n r p E. unfold toy_kdf. rewrite E. reflexivity.
+Qed.
+
+Theorem toy_kdf_domain h : law_kdf_domain (toy_kdf h).
 Proof.
   intros pw s pw' s' n r p. unfold toy_kdf.
   destruct (scrypt_class n r p =? 0); [|reflexivity].
-  destruct (toy_kdf_short pw s n r p); discriminate.
+  destruct (toy_kdf_short _ s n r p); discriminate.
 Qed.
 
 Theorem toy_hash_inj : law_hash_inj toy_hash.
